@@ -104,9 +104,17 @@ pub fn h264_frame(r: &mut Rng, kind: FrameKind, body_len: usize, decorate: bool)
             let order = r.below(6);
             if order == 0 {
                 nals.push(pps.clone());
+                if r.chance(1, 4) {
+                    // a second, differing PPS before the SPS: the FIRST one is the configuration
+                    nals.push({ let n = r.range(1, 9) as usize; mk(r, 0x68, n) });
+                }
                 nals.push(sps.clone());
             } else {
                 nals.push(sps.clone());
+                if r.chance(1, 4) {
+                    // a second, differing SPS before the PPS: the FIRST one is the configuration
+                    nals.push({ let n = r.range(3, 24) as usize; mk(r, 0x67, n) });
+                }
                 if r.chance(1, 6) {
                     nals.push(vec![0x06, 0x05, 0x01, 0x80]); // SEI in between
                 }
@@ -161,8 +169,16 @@ pub fn h265_frame(r: &mut Rng, kind: FrameKind, body_len: usize, decorate: bool)
             if r.chance(1, 6) {
                 r.shuffle(&mut sets);
             }
-            for s in sets {
+            // sometimes a type repeats (with different bytes) before all three types have been
+            // seen: the FIRST instance of each type is the configuration
+            let dup_after = if r.chance(1, 3) { Some(r.usize_below(2)) } else { None };
+            for (i, s) in sets.into_iter().enumerate() {
+                let t = (s[0] >> 1) & 0x3f;
                 nals.push(s);
+                if dup_after == Some(i) {
+                    let n = r.range(13, 30) as usize;
+                    nals.push(mk(r, t, n));
+                }
             }
             if r.chance(1, 5) {
                 nals.push({ let n = r.range(13, 30) as usize; mk(r, 33, n) }); // later differing SPS
@@ -261,16 +277,47 @@ pub fn bad_adts(r: &mut Rng) -> Vec<u8> {
     }
 }
 
-/// Valid Opus packet (code 0..2 plain; code 3 with count 1..=3 and short frames).
+/// Valid Opus packet: code 0..2 plain, or a CBR code-3 packet (with / without padding) that
+/// satisfies RFC 6716 R1..R7.
 pub fn opus_packet(r: &mut Rng, len: usize) -> Vec<u8> {
     let config = r.below(32) as u8;
     let stereo = r.below(2) as u8;
-    let code = match r.below(8) {
+    let code = match r.below(10) {
         0 => 1,
         1 => 2,
+        2 | 3 => 3,
         _ => 0,
     };
     let mut p = vec![(config << 3) | (stereo << 2) | code];
+    if code == 3 {
+        let per = crate::model::basic::opus_frame_samples(config);
+        let max = (5760 / per).min(48) as u64;
+        let count = r.range(1, max.max(1)) as u8;
+        let padded = r.chance(1, 2);
+        p.push(((padded as u8) << 6) | count);
+        let mut pad = 0usize;
+        if padded {
+            match r.below(3) {
+                0 => {
+                    p.push(0);
+                }
+                1 => {
+                    pad = r.range(1, 20) as usize;
+                    p.push(pad as u8);
+                }
+                _ => {
+                    pad = 254 + 3;
+                    p.push(255);
+                    p.push(3);
+                }
+            }
+        }
+        let each = (len / count as usize).clamp(1, 40);
+        let n = each * count as usize;
+        p.extend_from_slice(&r.bytes(n));
+        p.extend(std::iter::repeat(0u8).take(pad));
+        return p;
+    }
     let mut body = r.bytes(len.max(2));
     if code == 1 && body.len() % 2 == 1 {
         body.push(7);
